@@ -313,7 +313,7 @@ for k, v in UNITS.items():
     v["name"] = k
 
 SAFETY_KINDS = ("precondition", "arithmetic-overflow", "division-by-zero", "index-bounds", "termination", "shift-overflow", "panic")
-CONTAINMENT_WORDS = ("fs_allowed", "rel_inside", "harmless_suffix", "under_root", "has_dotdot_seg")
+CONTAINMENT_WORDS = ("fs_allowed", "rel_inside", "harmless_suffix", "under_root", "has_dotdot_seg", "resolves_a_served_link")
 
 
 def owner(unit, f):
@@ -328,7 +328,8 @@ def owner(unit, f):
             return ("C09", "C02")
         if f.kind in SAFETY_KINDS:
             return "C04"
-        return ("C02", "C04") if "frame_ok" in f.snippet or "err_registered" in f.snippet else "C02"
+        # the controller keeps the header frame and a registered status (C10 / C05 / C04); everything else functional is C02
+        return ("C10", "C05", "C04") if "frame_ok" in f.snippet or "err_registered" in f.snippet else "C02"
     if unit == "mime":
         return "C02"
     if unit == "range_parse":
@@ -500,7 +501,7 @@ PROPS = {
         ],
     },
     "C04": {
-        "units": ["server", "request_parse", "range_parse", "static", "app", "controllers", "log", "forms", "multipart"],
+        "units": ["server", "request_parse", "range_parse", "static", "app", "controllers", "log", "forms", "multipart", "cors", "header_list"],
         "level": "proof",
         "falsifier": ["e2e"],
         "case_prefixes": ["c04_"],
@@ -510,7 +511,7 @@ PROPS = {
         "assumptions": ["stack depth of the per-header recursion in Request::cursor_read is not expressible (termination is proved, a stack bound is not): with the default 10000-byte request buffer the depth stays below 5000 frames, which fits the 2 MiB worker stack in optimised builds (probed on every C20 run: case c20_stack_request_within_default_buffer must not fire; an unoptimised debug build overflows at about 2000 header lines); a configured buffer of 40 KB or more makes the overflow reachable from the network (known finding listed under C20)"],
     },
     "C10": {
-        "units": ["header_list", "cors", "server", "app", "controllers", "forms"],
+        "units": ["header_list", "cors", "server", "app", "controllers", "forms", "static", "response_gen"],
         "level": "proof",
         "falsifier": ["e2e"],
         "case_prefixes": ["c10_"],
@@ -521,7 +522,7 @@ PROPS = {
         "assumptions": [],
     },
     "C05": {
-        "units": ["response_gen", "server", "header_list", "cors", "request_parse", "app", "controllers", "forms"],
+        "units": ["response_gen", "server", "header_list", "cors", "request_parse", "app", "controllers", "forms", "static"],
         "level": "proof",
         "falsifier": ["response", "e2e"],
         "case_prefixes": ["c05_", "generate_response"],
